@@ -535,3 +535,13 @@ class Aliases:
     def hid(self, n):
         h = local_hid(n)
         return None if h is None else self.canon(h)
+
+
+def const_eval_str(n):
+    """string literal value of an expression (through refs / to_string / String::from), else None"""
+    n = unparen(strip(n)) if n is not None else None
+    while n is not None and n.get("k") in ("mcall", "call") and (n.get("name") in ("to_string", "to_owned", "into", "as_str") or (n.get("q") or "").endswith(("String::from", "From::from"))):
+        n = unparen(strip(n["recv"] if n.get("k") == "mcall" else n["a"][0]))
+    if n is not None and n.get("k") == "lit" and n.get("lk") == "str":
+        return n["v"]
+    return None
